@@ -76,7 +76,8 @@ pub fn run(outdir: &Path, tier: &str, seed: u64, shards: usize, replay: Option<S
             }
         }
     }
-    let jv = JsonVariant { data_wrapped: true, builtin_scalars: 1, meta_types: 1, is_one_of: true };
+    // the JSON rendering keeps a reason text on the fields that are NOT deprecated (`isDeprecated: false` decides)
+    let jv = JsonVariant { data_wrapped: true, builtin_scalars: 1, meta_types: 1, is_one_of: true, leftover_reason: true };
     for (p, fmt_json) in &work {
         let obs = gencase::observe(p, if *fmt_json { Some(&jv) } else { None });
         *dist.entry(format!("{}/{}/{}", if *fmt_json { "json" } else { "sdl" }, match p.opts.deprecation { Some(0) => "allow", Some(1) => "warn", Some(2) => "deny", _ => "unset" }, obs.class)).or_default() += 1;
@@ -96,7 +97,7 @@ pub fn run(outdir: &Path, tier: &str, seed: u64, shards: usize, replay: Option<S
         preludes: vec![],
     };
     cs.write(outdir, shards, json!({
-        "rule": "random schemas in which ~60% of object / interface / extension fields are deprecated (without reason, or with reasons containing quotes, backslashes, newlines, non-ASCII, padding, empty) x random selections (direct, via fragments, in variants) x strategies {allow, warn, deny} x {SDL, data-wrapped introspection JSON with built-in scalars and __ types}; plus a fixed regression program whose selection consists only of deprecated fields. `exercises` lists the cases whose selection touches no deprecated field.",
+        "rule": "random schemas in which ~60% of object / interface / extension fields are deprecated (without reason, or with reasons containing quotes, backslashes, newlines, non-ASCII, padding, empty) x random selections (direct, via fragments, in variants) x strategies {allow, warn, deny} x {SDL, data-wrapped introspection JSON with built-in scalars, __ types and a leftover deprecationReason text on the fields that are not deprecated}; plus a fixed regression program whose selection consists only of deprecated fields. `exercises` lists the cases whose selection touches no deprecated field.",
         "distribution": dist, "samples": samples,
     }));
     runner::cleanup_scratch();
